@@ -379,7 +379,7 @@ theorem filterMesh_consequences {α : Type} [Inhabited α] (dim : Nat) (includeT
     obtain ⟨c, _, hsc⟩ := (hmem s).1 hs
     exact hrange s (mem_inputCell connectivity nv c s hsc)
   have hHlen : (out.cells.flatMap cell).length = out.cells.length * nv :=
-    length_flatMap_uniform _ _ nv (fun c hc => inputCell_length connectivity nv nCells c hlen (hclt c hc))
+    length_flatMap_uniform_mesh _ _ nv (fun c hc => inputCell_length connectivity nv nCells c hlen (hclt c hc))
   have hclen : out.connectivity.length = out.cells.length * nv := by
     have := congrArg List.length hconn
     rw [List.length_map, List.length_map, hHlen] at this
